@@ -369,8 +369,9 @@ func checkC03(c *core.Ctx, r *core.Report) {
 		"(1) ORDERTABLE soundness of block range-index pruning — for every function of the micro-index checker that switches on the filter operator over (value, block-min, block-max), each arm accepts the block whenever some x in [min,max] satisfies `x <op> value` (an accelerator may only skip blocks that cannot match); " +
 		"(2) TimeRange.AreTimesFullyEnclosed means start <= low and high <= end; " +
 		"(3) DEPENDS fast-path gates — canUseSSTForStats implies match-all ∧ segment fully enclosed ∧ no eval / values() / list() / non-ingest statistic, and the agile-tree gate implies segment fully enclosed ∧ match-all ∧ no time aggregation; the `fully enclosed` arguments are results of AreTimesFullyEnclosed on the query range; " +
-		"(4) ORDER (shared with C11) — the rotation hand-over and snapshot order."
-	r.NotCovered = "equality of results across layouts, bloom contents vs probes, persistent-query bitsets vs raw search (including which record the ingest-time matcher sees), agile-tree/rollup contents, parallel-chain merge"
+		"(4) ORDER (shared with C11) — the rotation hand-over and snapshot order; " +
+		"(5) RECSTART — the ingest-time matcher of persistent queries reads a column's last record as cbuf[cstartidx:cbufidx]: every per-record start of a column value (initAndBackFillColumn for present columns, the absent-column loop for the others) stores cstartidx = cbufidx before the record's bytes are appended, so the matcher never sees the previous record's value."
+	r.NotCovered = "equality of results across layouts, bloom contents vs probes, persistent-query bitsets vs raw search beyond the record-start clause, agile-tree/rollup contents, parallel-chain merge"
 	eq := core.EqualityCalls{}
 
 	checkRangeFilterTables(c, r)
@@ -407,6 +408,125 @@ func checkC03(c *core.Ctx, r *core.Report) {
 
 	// ---------------------------------------------------------------- (4)
 	checkHandOver(c, r)
+
+	// ---------------------------------------------------------------- (5)
+	checkRecordStart(c, r)
+}
+
+// checkRecordStart: cstartidx is set to cbufidx at the start of every record's value in a column.
+func checkRecordStart(c *core.Ctx, r *core.Report) {
+	cstart, cidx := c.Field(pkgWriter, "ColWip.cstartidx"), c.Field(pkgWriter, "ColWip.cbufidx")
+	colsInBlock := c.Field(pkgWriter, "WipBlock.columnsInBlock")
+	// a store `X.cstartidx = X.cbufidx`; returns X
+	recStart := func(in ssa.Instruction) ssa.Value {
+		st, ok := in.(*ssa.Store)
+		if !ok {
+			return nil
+		}
+		fa, ok := st.Addr.(*ssa.FieldAddr)
+		if !ok || core.FieldOfAddr(fa) != cstart {
+			return nil
+		}
+		ld, ok := st.Val.(*ssa.UnOp)
+		if !ok {
+			return nil
+		}
+		fb, ok := ld.X.(*ssa.FieldAddr)
+		if !ok || core.FieldOfAddr(fb) != cidx || fb.X != fa.X {
+			return nil
+		}
+		return fa.X
+	}
+	// (a) initAndBackFillColumn: on every path to a return, after the last append
+	init := c.Fn(pkgWriter, "SegStore.initAndBackFillColumn")
+	okInit := true
+	nRet := 0
+	for _, ret := range core.Returns(init) {
+		nRet++
+		// the returned ColWip
+		cw := core.RetResult(ret, 0)
+		found := false
+		for _, b := range init.Blocks {
+			for _, in := range b.Instrs {
+				if x := recStart(in); x != nil && x == cw && core.InstrDominates(in, ret) {
+					// no call that may append lies between the store and the return
+					clean := true
+					core.WalkForward(init, in, func(y ssa.Instruction) bool {
+						if ci, ok := y.(ssa.CallInstruction); ok {
+							if callee := ci.Common().StaticCallee(); callee != nil && callee.Name() == "backFillPastRecords" {
+								clean = false
+							}
+						}
+						return true
+					})
+					if clean {
+						found = true
+					}
+				}
+			}
+		}
+		if !found {
+			okInit = false
+		}
+	}
+	r.Check(okInit && nRet > 0, "RECSTART", "writer.SegStore.initAndBackFillColumn:record-start-marked", c.Pos(init.Pos()), "cstartidx = cbufidx is stored for the returned column after any backfill of past records", "initAndBackFillColumn can return a column whose cstartidx does not mark the end of the previous record: the ingest-time matcher of persistent queries evaluates the previous record's bytes")
+	// (b) every per-record loop over the block's columns that appends a backfill byte marks the record start first
+	n := 0
+	for _, fn := range c.RepoFunctions() {
+		if core.FnPkgPath(fn) != core.ModPath+"/"+pkgWriter {
+			continue
+		}
+		for _, l := range core.Loops(fn) {
+			isCols := false
+			for _, in := range l.Header.Instrs {
+				if nx, ok := in.(*ssa.Next); ok {
+					if rg, ok := nx.Iter.(*ssa.Range); ok {
+						if ld, ok := rg.X.(*ssa.UnOp); ok {
+							if fa, ok := ld.X.(*ssa.FieldAddr); ok && core.FieldOfAddr(fa) == colsInBlock {
+								isCols = true
+							}
+						}
+					}
+				}
+			}
+			if !isCols {
+				continue
+			}
+			for b := range l.Body {
+				for _, in := range b.Instrs {
+					call, ok := in.(*ssa.Call)
+					if !ok {
+						continue
+					}
+					f := core.CalleeFunc(call)
+					if f == nil || f.Name() != "Append" || len(call.Call.Args) != 2 {
+						continue
+					}
+					// receiver: load of X.cbuf
+					ld, ok := call.Call.Args[0].(*ssa.UnOp)
+					if !ok {
+						continue
+					}
+					fa, ok := ld.X.(*ssa.FieldAddr)
+					if !ok || core.FieldOfAddr(fa) == nil || core.FieldOfAddr(fa).Name() != "cbuf" {
+						continue
+					}
+					n++
+					x := fa.X
+					marked := false
+					for bb := range l.Body {
+						for _, in2 := range bb.Instrs {
+							if y := recStart(in2); y != nil && y == x && core.InstrDominates(in2, in) {
+								marked = true
+							}
+						}
+					}
+					r.Check(marked, "RECSTART", shortFn(fn)+":absent-column-record-start-marked", c.Pos(call.Pos()), "cstartidx = cbufidx is stored in the iteration before the backfill byte is appended", "the backfill byte of an absent column is appended without marking the record start: getLastRecord() returns the previous record's value followed by the backfill byte, so a tracked persistent query is evaluated on a value the event does not have and the persistent-query answer differs from the raw search")
+				}
+			}
+		}
+	}
+	r.Floor("RECSTART", "backfill appends in per-record loops over the block's columns", n, 1)
 }
 
 // checkGate: the function's result (or, when guarded != nil, the condition
